@@ -430,3 +430,96 @@ func sortedStrings(s []string) []string {
 }
 
 func variantByName(n string) *model.Variant { return variants.Get(n) }
+
+// ---- structural equality of built trees ------------------------------------------------------------------
+
+// treeEqual is reflect.DeepEqual except that map keys are matched structurally instead of by identity:
+// with wrapper unions a union-typed list key is a pointer to a wrapper struct, so two independently
+// built trees can never be reflect.DeepEqual although they hold the same data.
+func treeEqual(a, b interface{}) bool {
+	if reflect.DeepEqual(a, b) {
+		return true
+	}
+	return deepEq(reflect.ValueOf(a), reflect.ValueOf(b))
+}
+
+func deepEq(a, b reflect.Value) bool {
+	if a.IsValid() != b.IsValid() {
+		return false
+	}
+	if !a.IsValid() {
+		return true
+	}
+	if a.Type() != b.Type() {
+		return false
+	}
+	switch a.Kind() {
+	case reflect.Ptr, reflect.Interface:
+		if a.IsNil() || b.IsNil() {
+			return a.IsNil() == b.IsNil()
+		}
+		return deepEq(a.Elem(), b.Elem())
+	case reflect.Struct:
+		for i := 0; i < a.NumField(); i++ {
+			if !deepEq(a.Field(i), b.Field(i)) {
+				return false
+			}
+		}
+		return true
+	case reflect.Slice:
+		if a.IsNil() != b.IsNil() || a.Len() != b.Len() {
+			return false
+		}
+		for i := 0; i < a.Len(); i++ {
+			if !deepEq(a.Index(i), b.Index(i)) {
+				return false
+			}
+		}
+		return true
+	case reflect.Array:
+		for i := 0; i < a.Len(); i++ {
+			if !deepEq(a.Index(i), b.Index(i)) {
+				return false
+			}
+		}
+		return true
+	case reflect.Map:
+		if a.IsNil() != b.IsNil() || a.Len() != b.Len() {
+			return false
+		}
+		used := map[int]bool{}
+		type kv struct{ k, v reflect.Value }
+		var bs []kv
+		for it := b.MapRange(); it.Next(); {
+			bs = append(bs, kv{it.Key(), it.Value()})
+		}
+		for it := a.MapRange(); it.Next(); {
+			found := false
+			for i, e := range bs {
+				if !used[i] && deepEq(it.Key(), e.k) && deepEq(it.Value(), e.v) {
+					used[i], found = true, true
+					break
+				}
+			}
+			if !found {
+				return false
+			}
+		}
+		return true
+	case reflect.Bool:
+		return a.Bool() == b.Bool()
+	case reflect.Int, reflect.Int8, reflect.Int16, reflect.Int32, reflect.Int64:
+		return a.Int() == b.Int()
+	case reflect.Uint, reflect.Uint8, reflect.Uint16, reflect.Uint32, reflect.Uint64, reflect.Uintptr:
+		return a.Uint() == b.Uint()
+	case reflect.Float32, reflect.Float64:
+		return a.Float() == b.Float()
+	case reflect.Complex64, reflect.Complex128:
+		return a.Complex() == b.Complex()
+	case reflect.String:
+		return a.String() == b.String()
+	case reflect.Func, reflect.Chan, reflect.UnsafePointer:
+		return a.Pointer() == b.Pointer()
+	}
+	return false
+}
